@@ -207,3 +207,24 @@ def independent_terminals(dev):
         bedges = [int(e) for e in em.boundary_edge_indices if poly.contains(Point(em.centers[e] * xi))]
         out[t.name] = dict(sites=np.array(bsites, dtype=int), boundary_edges=np.array(bedges, dtype=int), length=float(em.edge_lengths[bedges].sum() * xi))
     return out
+
+
+def device_line(dev):
+    """(attrs, holes, terminals) sections describing a device for the Lean `deveq` command: every component is
+    replaced by a hash of the data the library's == compares (layer constants; polygon name, vertices, mesh flag)"""
+    import hashlib
+
+    def h(*parts):
+        m = hashlib.sha1()
+        for p in parts:
+            m.update(repr(p).encode() if not isinstance(p, np.ndarray) else np.ascontiguousarray(p, dtype=float).tobytes())
+        return m.hexdigest()[:16]
+
+    L = dev.layer
+    layer = h(L.london_lambda, L.coherence_length, L.thickness, L.u, L.gamma, L.z0, L.conductivity)
+    poly = lambda p: h(p.name, p.points, bool(p.mesh))
+    probe = "-" if dev.probe_points is None else h(np.asarray(dev.probe_points))
+    attrs = f"{dev.name} {dev.length_units} {layer} {poly(dev.film)} {probe}"
+    holes = " ".join(f"{p.name}={poly(p)}" for p in dev.holes)
+    terms = " ".join(f"{p.name}={poly(p)}" for p in dev.terminals)
+    return attrs, holes, terms
